@@ -275,9 +275,9 @@ func setupNode(w *fx.World, mat *Material, dir string) (*fx.Node, error) {
 	}
 	for _, i := range mat.Pre {
 		b := decBlock(mat.Tree[i].Hex)
-		if err := step(func() error { return n.BC.InsertBlock(b) }); err != nil {
-			return n, fmt.Errorf("pre block %d: %v", i, err)
-		}
+		// a refusal is not an error here (a sibling of a block that became stable at once is
+		// ignored); setup is the same deterministic sequence for the concurrent and the replay nodes
+		_ = step(func() error { _ = n.BC.InsertBlock(b); return nil })
 	}
 	if mat.PoolTx != "" {
 		raw, _ := hex.DecodeString(mat.PoolTx)
@@ -665,6 +665,9 @@ func runHistory(c *run.Ctx, mat *Material, rep int, census bool) {
 		minedHex = append(minedHex, encBlock(cp))
 		theBus.register(cp.Hash().Hex(), cp.Height())
 		c.Stat("mined_blocks_checked", 1)
+		if len(cp.Txs) > 0 {
+			c.Stat("mined_blocks_with_txs", 1)
+		}
 		if cls := judgeSig(self.NodeID, cp.Hash().Hex(), cp.Height(), cp.Header.SignData, nil, "mined-block"); cls != "" {
 			var sd types.SignData
 			copy(sd[:], cp.Header.SignData)
